@@ -127,6 +127,16 @@ def _work(args):
                     raise
                 except Exception as e:
                     rec["variants"].append(variant("normal_form", EMPTY, type(e).__name__))
+            # rigid transposes (all wires bent round with nested cups and caps); Dim(2, 3) has no cups with itself
+            if tuple(dimmap["x"]) == tuple(reversed(dimmap["x"])) and len(dabs["boxes"]) <= 3 and k % 2 == 0:
+                for left in (False, True):
+                    kind = "transpose_l" if left else "transpose_r"
+                    try:
+                        rec["variants"].append(variant(kind, proj(F(real.transpose(left=left)))))
+                    except core.Machinery:
+                        raise
+                    except Exception as e:
+                        rec["variants"].append(variant(kind, EMPTY, type(e).__name__))
             if all(b["kind"] in (0, 1) for b in dabs["boxes"]) and all(a[1] == 0 for a in dabs["dom"]) and \
                     all(a[1] == 0 for b in dabs["boxes"] for a in b["dom"] + b["cod"]):
                 # the same diagram as a tensor.Diagram of tensor boxes, evaluated by .eval()
